@@ -29,7 +29,7 @@ RULE = ("Installations (1..4 ACs x 0..16 zones, contiguous partitions, AT4 old/n
 ASSUMPTIONS = ["the console answers as the vendor documents prescribe (SimConsole on refproto)",
                "an unsolicited truthful frame of the awaited kind counts as the answer",
                "connect latency of exactly 5 s races with the 5 s timeout: either result accepted"]
-REQUIRED_OBS = ["last_step_gated", "init_true_judged", "init_false_judged", "extras_inserted", "zero_zone_at5",
+REQUIRED_OBS = ["names_listed_out_of_order", "last_step_gated", "init_true_judged", "init_false_judged", "extras_inserted", "zero_zone_at5",
                 "zero_zone_at4",
                 "bitmap_partitions", "old_format_multi_ac", "silence_cases", "late_connect_cases"]
 BUDGET = {"quick": 100, "thorough": 1500}
@@ -245,7 +245,15 @@ def run_case(case):
             obs["extras_inserted"] = obs.get("extras_inserted", 0) + len(frames)
         return frames
 
+    order = None
+    if rnd.random() < 0.4 and len(inst["zones"]) > 1:
+        # the names answer lists the zones in some other order than ascending
+        perm = list(range(len(inst["zones"])))
+        rnd.shuffle(perm)
+        order = lambda zs, perm=perm: [zs[i] for i in perm if i < len(zs)]  # noqa: E731
+        obs["names_listed_out_of_order"] = 1
     knobs = C.Knobs(extra=extra if case["extras"] else None, silent_from=case["silent"],
+                    names_order=order,
                     extra_when_silent=case.get("extra_when_silent", False),
                     answer_gap=case.get("gap", 0.0),
                     segmenter=segmenter(case["seg"], rnd))
@@ -397,7 +405,8 @@ def run_case(case):
                 v("ac-name-differs", ac=a, got=s["name"], want=e["name"])
             got_z = s["zones"]
             want_z = e["zones"]
-            if (sorted(got_z) if meta["bitmap"] else got_z) != want_z:
+            # (which zones belong to the AC is what is stated; not the order they are listed in)
+            if sorted(got_z) != sorted(want_z) or len(got_z) != len(set(got_z)):
                 v("zone-to-ac-assignment-wrong", ac=a, got=got_z, want=want_z,
                   bitmap=meta["bitmap"], abilities=[(x["ability"]["start"], x["ability"]["count"],
                                                      sorted(x["ability"].get("groups") or []))
